@@ -210,6 +210,7 @@ func runC14(p *core.Prog, r *core.Report) {
 	// the slot holds the recovered value
 	{
 		found := false
+		other := ""
 		for f := range goroutineFns {
 			sx.Instrs(f, func(in ssa.Instruction) {
 				c, ok := in.(ssa.CallInstruction)
@@ -264,8 +265,20 @@ func runC14(p *core.Prog, r *core.Report) {
 				check(sx.Unspill(v))
 				if a, ok := v.(*ssa.Alloc); ok {
 					st, _ := sx.CellStores(a)
+					all := len(st) > 0
 					for _, s := range st {
+						saved := isRec
+						isRec = false
 						check(s)
+						if !isRec {
+							// the cell is also assigned something else (a wrapped / formatted version of the value)
+							all = false
+							other = "the variable published is also assigned " + short(sx.ValPath(s)) + " at " + p.Pos(s.Pos())
+						}
+						isRec = saved
+					}
+					if all {
+						isRec = true
 					}
 				}
 				if mi, ok := v.(*ssa.MakeInterface); ok {
@@ -289,7 +302,11 @@ func runC14(p *core.Prog, r *core.Report) {
 				}
 			})
 		}
-		r.Check(found, "C14-R2", "last-panic slot stores the recovered value", p.FuncPos(t.Worker), "the value published is recover()'s result", "no atomic store of the recovered value found in the worker")
+		whyRec := "no atomic store of the recovered value found in the worker"
+		if other != "" {
+			whyRec = other + ": LastPanic would not be one of the values the tasks panicked with"
+		}
+		r.Check(found && other == "", "C14-R2", "last-panic slot stores the recovered value", p.FuncPos(t.Worker), "the value published is recover()'s result", whyRec)
 	}
 
 	// ---- R3
